@@ -148,6 +148,8 @@ class C19(Check):
                         idx = [0, 2, 3] if e.op == "dim" else [0, 2, 4]
                         if any(errs[i] != "0" for i in idx if i < len(errs)) or e.kv.get("same") != "1":
                             v.append(Violation("inconsistent|%s|%s" % (e.op, kind), "file %s opened but inquiries on %s %s are inconsistent: %s" % (f["tag"], e.op, e.kv.get("d", e.kv.get("v")), e.raw[:200]), res))
+                    if e.op == "dim" and e.geti("len", 0) < 0:
+                        v.append(Violation("inconsistent|negative-length|" + kind, "file %s opened with dimension %s of length %s" % (f["tag"], e.kv.get("d"), e.kv.get("len")), res))
                     if e.kind == "S" and e.op == "readsome" and e.kv.get("guard") == "0":
                         v.append(Violation("guard|readsome", "read of %s wrote outside the buffer" % f["tag"], res))
             em = ret.get(m["malloc"])
